@@ -50,6 +50,8 @@ def candidates(world, pre):
             out.append({**base, "kind": "povm_wrong_shape", "shape": "tall", "seed": 3})
             out.append({**base, "kind": "povm_wrong_shape", "shape": "wide", "seed": 3})
             out.append({**base, "kind": "povm_wrong_shape", "shape": "mixed", "seed": 3})
+            out.append({**base, "kind": "kraus_wrong_shape", "shape": "empty", "seed": 3})
+            out.append({**base, "kind": "povm_wrong_shape", "shape": "empty", "seed": 3})
             if k in ("P", "C"):
                 out.append({**base, "kind": "custom_op_wrong_shape"})
             if k in ("P", "F"):
